@@ -365,6 +365,22 @@ fn parse_term_from_tag<'a>(
     }
 }
 
+/// Inflates at most `uncompressed_size` bytes. Kept out of line: the inflater's state is large,
+/// and `parse_compressed` recurses into `parse_term` for nested compressed terms.
+#[inline(never)]
+fn inflate(data: &[u8], uncompressed_size: u32) -> Result<(Vec<u8>, usize), ErrorKind> {
+    let mut decoder = ZlibDecoder::new(data);
+    let mut decompressed = Vec::new();
+    (&mut decoder)
+        .take(uncompressed_size as u64 + 1)
+        .read_to_end(&mut decompressed)
+        .map_err(|_| ErrorKind::Fail)?;
+    if decompressed.len() > uncompressed_size as usize {
+        return Err(ErrorKind::TooLarge);
+    }
+    Ok((decompressed, decoder.total_in() as usize))
+}
+
 fn parse_compressed<'a>(input: &'a [u8], cache: &AtomCache) -> NomResult<'a, OwnedTerm> {
     let (rest, uncompressed_size) = be_u32(input)?;
 
@@ -372,16 +388,8 @@ fn parse_compressed<'a>(input: &'a [u8], cache: &AtomCache) -> NomResult<'a, Own
         return Err(nom::Err::Failure(NomError::new(input, ErrorKind::TooLarge)));
     }
 
-    let mut decoder = ZlibDecoder::new(rest);
-    let mut decompressed = Vec::new();
-    (&mut decoder)
-        .take(uncompressed_size as u64 + 1)
-        .read_to_end(&mut decompressed)
-        .map_err(|_| nom::Err::Failure(NomError::new(input, ErrorKind::Fail)))?;
-    if decompressed.len() > uncompressed_size as usize {
-        return Err(nom::Err::Failure(NomError::new(input, ErrorKind::TooLarge)));
-    }
-    let consumed = decoder.total_in() as usize;
+    let (decompressed, consumed) = inflate(rest, uncompressed_size)
+        .map_err(|kind| nom::Err::Failure(NomError::new(input, kind)))?;
 
     let owned_term = match parse_term(&decompressed, cache) {
         Ok((_remaining, term)) => term,
